@@ -525,3 +525,927 @@ theorem C04_code_tabulation_write_tabeam (I : String → Nat → Rat → Rat) (h
   | ok v => intro h; simpa [andThen, Except.map, tabeamTab] using h
 
 end Atsim.C04
+
+/-! ## Code tie: the potable Finnis-Sinclair builder (`EAM_Potential_Builder_FS`), regenerated from the source for objects of the subclass -/
+namespace Atsim.C04
+open Atsim
+
+namespace FSTie
+open Atsim.Gen.Logic
+
+/-- rows `A->B : definition` of `[EAM-Density]` as (from, to, function id), the form builder being `mkFn` -/
+def fsRowsOf (mkFn : Pfi → FnRec) (rows : List FsRow) : List (Sp × Sp × Fid) :=
+  rows.map fun r => (r.species.from_species, r.species.to_species, (mkFn r.pfi).fid)
+
+/-- rows of `[EAM-Embed]` as (species, function id) pairs, the form builder being `mkFn` (as in the C12 builder tie) -/
+def rowsOf (mkFn : Pfi → FnRec) (rows : List EmbRow) : List (Sp × Fid) := rows.map fun r => (r.species, (mkFn r.pfi).fid)
+
+/-- the reference data as the model's `spMeta`: atomic number and mass are required, lattice constant and type default to 0 and fcc -/
+def metaOf (refMass : String → Option Rat) (refNumber : String → Option Int) (refLatticeConstant : String → Option Rat) (refLatticeType : String → Option String)
+    (s : Sp) : Option (Int × Rat × Rat × String) :=
+  match refNumber s, refMass s with
+  | some z, some m => some (z, m, (refLatticeConstant s).getD 0, (refLatticeType s).getD "fcc")
+  | _, _ => none
+
+/-- no `A->B` is declared twice -/
+def NoDupDecl (rows : List FsRow) : Prop := (rows.map fun r => (r.species.from_species, r.species.to_species)).Nodup
+
+/-- an element as built by the code and the model's element: same species, reference data and embedding function, and the SAME FUNCTION UNDER EVERY NEIGHBOUR SPECIES
+(the order in which the code's inner dictionary lists the neighbours is not compared: every consumer looks the neighbour up by name) -/
+def SameEl (r : EamRec) (e : El) : Prop :=
+  r.species = e.sp ∧ r.atomicNumber = e.z ∧ r.mass = e.mass ∧ r.latticeConstant = e.a0 ∧ r.latticeType = e.lat ∧ r.embed = ⟨e.embed⟩ ∧
+  ∀ o : String, (lookupLast r.densFS o).map (·.fid) = dictGet e.densTo o
+
+/-! ### helper lemmas for the code tie (dictionary, set and sorting lemmas as in the C12 builder tie) -/
+theorem rev_ind {α : Type} {motive : List α → Prop} (nil : motive []) (append_singleton : ∀ l x, motive l → motive (l ++ [x]))
+    (l : List α) : motive l := by
+  have h : ∀ l : List α, motive l.reverse := by
+    intro l
+    induction l with
+    | nil => exact nil
+    | cons x l ih => rw [List.reverse_cons]; exact append_singleton _ _ ih
+  simpa using h l.reverse
+
+section dict
+variable {β : Type}
+
+theorem lookupLast_append_single (d : List (String × β)) (k : String) (v : β) (s : String) :
+    lookupLast (d ++ [(k, v)]) s = if s = k then some v else lookupLast d s := by
+  simp only [lookupLast, List.reverse_append, List.reverse_cons, List.reverse_nil, List.nil_append, List.singleton_append, List.find?_cons]
+  by_cases h : s = k
+  · subst h; simp
+  · have : (k == s) = false := by simp [Ne.symm h]
+    simp [this, h]
+
+theorem lookupLast_eq_none (d : List (String × β)) (s : String) :
+    lookupLast d s = none ↔ s ∉ d.map (·.1) := by
+  simp only [lookupLast, Option.map_eq_none_iff, List.find?_eq_none, List.mem_reverse, List.mem_map, not_exists, not_and]
+  constructor
+  · intro h e he heq
+    exact h e he (by simp [heq])
+  · intro h e he heq
+    exact h e he (by simpa using heq)
+
+theorem find_map_set (k : String) (v : β) (s : String) (l : List (String × β)) :
+    ((l.map (fun e => if e.1 == k then (k, v) else e)).find? (fun e => e.1 == s)).map (·.2)
+      = if s = k then (l.find? (fun e => e.1 == s)).map (fun _ => v) else (l.find? (fun e => e.1 == s)).map (·.2) := by
+  induction l with
+  | nil => simp
+  | cons e l ih =>
+    simp only [List.map_cons, List.find?_cons]
+    by_cases h1 : e.1 = k <;> by_cases h2 : s = k
+    · subst h2; simp [h1]
+    · have : (k == s) = false := by simp [Ne.symm h2]
+      have h3 : (e.1 == s) = false := by simp [h1, Ne.symm h2]
+      simpa [h1, this, h3, h2] using ih
+    · subst h2
+      have h3 : (e.1 == s) = false := by simp [h1]
+      simpa [h3] using ih
+    · have h3 : (e.1 == k) = false := by simp [h1]
+      simp only [h3, Bool.false_eq_true, if_false]
+      cases h4 : (e.1 == s)
+      · simpa [h2] using ih
+      · simp [h2]
+
+theorem lookupLast_odictSet (d : List (String × β)) (k : String) (v : β) (s : String) :
+    lookupLast (odictSet d k v) s = if s = k then some v else lookupLast d s := by
+  unfold odictSet
+  split
+  · rename_i hany
+    simp only [lookupLast, ← List.map_reverse, find_map_set]
+    split
+    · rename_i hs
+      subst hs
+      have : ∃ e, d.reverse.find? (fun e => e.1 == s) = some e := by
+        rw [← Option.isSome_iff_exists, List.find?_isSome]
+        simpa using hany
+      obtain ⟨e, he⟩ := this
+      simp [he]
+    · rfl
+  · exact lookupLast_append_single d k v s
+
+theorem keys_odictSet (d : List (String × β)) (k : String) (v : β) :
+    (odictSet d k v).map (·.1) = if (d.map (·.1)).contains k then d.map (·.1) else d.map (·.1) ++ [k] := by
+  unfold odictSet
+  have : d.any (fun e => e.1 == k) = (d.map (·.1)).contains k := by
+    induction d with
+    | nil => rfl
+    | cons e d ih => simp only [List.any_cons, ih, List.map_cons, List.contains_cons]; rw [Bool.beq_comm]
+  rw [this]
+  split
+  · rw [List.map_map]
+    apply List.map_congr_left
+    intro e _
+    by_cases h : e.1 = k <;> simp [h]
+  · simp
+
+theorem lookupLast_odictSetDefault (d : List (String × β)) (k : String) (v : β) (s : String) :
+    lookupLast (odictSetDefault d k v) s = match lookupLast d s with | some w => some w | none => if s = k then some v else none := by
+  unfold odictSetDefault
+  split
+  · rename_i hany
+    cases h : lookupLast d s with
+    | some w => rfl
+    | none =>
+      have := (lookupLast_eq_none d s).1 h
+      have hk : s ≠ k := by
+        rintro rfl
+        apply this
+        simp at hany ⊢
+        exact hany
+      simp [hk]
+  · rw [lookupLast_append_single]
+    rename_i hany
+    by_cases hk : s = k
+    · subst hk
+      have : lookupLast d s = none := by
+        rw [lookupLast_eq_none]; simpa using hany
+      simp [this]
+    · simp only [hk, if_false]
+      cases lookupLast d s <;> rfl
+
+end dict
+theorem to_dict_loop_eq (mkFn : Pfi → FnRec) (d : List (String × FnRec)) (u : Unit) (tl rows : List EmbRow) :
+    eam_to_dict_loop1 mkFn d u tl rows = rows.foldl (fun d r => odictSet d r.species (mkFn r.pfi)) d := by
+  induction rows generalizing d with
+  | nil => rfl
+  | cons r rows ih => simp only [eam_to_dict_loop1, List.foldl_cons]; exact ih _
+
+theorem eraseDupsSp_append_single (l : List Sp) (x : Sp) :
+    eraseDupsSp (l ++ [x]) = if (eraseDupsSp l).contains x then eraseDupsSp l else eraseDupsSp l ++ [x] := by
+  unfold eraseDupsSp
+  rw [List.foldl_append]
+  rfl
+
+theorem mem_eraseDupsSp (l : List Sp) (x : Sp) : x ∈ eraseDupsSp l ↔ x ∈ l := by
+  induction l using rev_ind generalizing x with
+  | nil => simp [eraseDupsSp]
+  | append_singleton l y ih =>
+    rw [eraseDupsSp_append_single]
+    split
+    · rename_i h
+      have hy : y ∈ l := by simpa [ih] using h
+      by_cases hxy : x = y
+      · subst hxy; simp [ih, hy]
+      · simp [ih, hxy]
+    · simp [ih]
+
+theorem nodup_eraseDupsSp (l : List Sp) : (eraseDupsSp l).Nodup := by
+  induction l using rev_ind with
+  | nil => simp [eraseDupsSp]
+  | append_singleton l y ih =>
+    rw [eraseDupsSp_append_single]
+    split
+    · exact ih
+    · rename_i h
+      rw [List.nodup_append]
+      refine ⟨ih, by simp, ?_⟩
+      intro a ha b hb
+      simp at hb
+      subst hb
+      rintro rfl
+      exact h (by simpa using ha)
+
+theorem to_dict_keys (mkFn : Pfi → FnRec) (rows : List EmbRow) :
+    (eam_to_dict mkFn rows ()).map (·.1) = eraseDupsSp (rows.map (·.species)) := by
+  unfold eam_to_dict
+  rw [to_dict_loop_eq]
+  induction rows using rev_ind with
+  | nil => rfl
+  | append_singleton rows r ih =>
+    rw [List.foldl_append, List.foldl_cons, List.foldl_nil, keys_odictSet, ih, List.map_append, List.map_singleton,
+      eraseDupsSp_append_single]
+
+theorem dictGet_eq_lookupLast (d : List (Sp × Fid)) (s : Sp) : dictGet d s = lookupLast d s := by
+  unfold dictGet lookupLast
+  cases List.find? _ _ <;> rfl
+
+theorem to_dict_lookup (mkFn : Pfi → FnRec) (rows : List EmbRow) (s : String) :
+    lookupLast (eam_to_dict mkFn rows ()) s = (dictGet (rowsOf mkFn rows) s).map FnRec.mk := by
+  unfold eam_to_dict
+  rw [to_dict_loop_eq, dictGet_eq_lookupLast]
+  induction rows using rev_ind with
+  | nil => rfl
+  | append_singleton rows r ih =>
+    rw [List.foldl_append, List.foldl_cons, List.foldl_nil, lookupLast_odictSet, ih]
+    simp only [rowsOf, List.map_append, List.map_singleton]
+    rw [lookupLast_append_single]
+    split <;> simp
+
+theorem rowsOf_keys (mkFn : Pfi → FnRec) (rows : List EmbRow) : (rowsOf mkFn rows).map (·.1) = rows.map (·.species) := by
+  simp [rowsOf]
+
+theorem mem_listToSet (l : List String) (x : String) : x ∈ listToSet l ↔ x ∈ l := by
+  induction l with
+  | nil => simp [listToSet]
+  | cons y l ih =>
+    simp only [listToSet, List.mem_cons, List.mem_filter, ih]
+    by_cases h : x = y <;> simp [h]
+
+theorem nodup_listToSet (l : List String) : (listToSet l).Nodup := by
+  induction l with
+  | nil => simp [listToSet]
+  | cons y l ih =>
+    simp only [listToSet, List.nodup_cons, List.mem_filter]
+    exact ⟨by simp, ih.filter _⟩
+
+theorem mem_setDiff (a b : List String) (x : String) : x ∈ setDiff a b ↔ x ∈ a ∧ x ∉ b := by
+  simp [setDiff]
+theorem foldl_odictSet_lookup {β : Type} (n : β) (l : List String) (E : List (String × β)) (s : String) :
+    lookupLast (l.foldl (fun E s => odictSet E s n) E) s = if s ∈ l then some n else lookupLast E s := by
+  induction l generalizing E with
+  | nil => simp
+  | cons x l ih =>
+    rw [List.foldl_cons, ih, lookupLast_odictSet]
+    by_cases h1 : s ∈ l <;> by_cases h2 : s = x <;> simp [h1, h2]
+
+theorem foldl_odictSet_keys {β : Type} (n : β) (l : List String) (E : List (String × β)) (hnd : l.Nodup)
+    (hdis : ∀ s ∈ l, s ∉ E.map (·.1)) :
+    (l.foldl (fun E s => odictSet E s n) E).map (·.1) = E.map (·.1) ++ l := by
+  induction l generalizing E with
+  | nil => simp
+  | cons x l ih =>
+    rw [List.foldl_cons, ih _ (List.nodup_cons.1 hnd).2]
+    · rw [keys_odictSet]
+      have : ¬ ((E.map (·.1)).contains x) = true := by
+        simpa using hdis x (by simp)
+      rw [if_neg this]
+      simp
+    · intro s hs
+      rw [keys_odictSet]
+      have hx : s ≠ x := by rintro rfl; exact (List.nodup_cons.1 hnd).1 hs
+      have := hdis s (by simp [hs])
+      split
+      · exact this
+      · simp only [List.mem_append, List.mem_singleton, not_or]
+        exact ⟨this, hx⟩
+
+theorem leS_total' (a b : String) : (decide (a ≤ b)) = true ∨ (decide (b ≤ a)) = true := by
+  simpa using le_total a b
+
+theorem null_species_eq (densSp K : List String) :
+    stableSortBy (fun a b => decide (a ≤ b)) (setDiff (listToSet densSp) K)
+      = (sortSp (eraseDupsSp densSp)).filter (fun s => densSp.contains s && !K.contains s) := by
+  apply Atsim.C05.TabeamWriter.stableSortBy_eq (fun a b : String => decide (a ≤ b))
+  · intro a b; simpa using le_total a b
+  · intro a b c; simpa using fun h1 h2 => le_trans h1 h2
+  · intro a b; simpa using fun h1 h2 => le_antisymm h1 h2
+  · rw [List.perm_ext_iff_of_nodup]
+    · intro a
+      rw [mem_setDiff, mem_listToSet, List.mem_filter, (C05.TabeamWriter.sortSp_perm _).mem_iff, mem_eraseDupsSp]
+      simp
+    · exact (nodup_listToSet _).filter _
+    · exact (((C05.TabeamWriter.sortSp_perm _).nodup_iff).2 (nodup_eraseDupsSp _)).filter _
+  · have := (C05.TabeamWriter.sortSp_sorted (eraseDupsSp densSp)).filter (fun s => densSp.contains s && !K.contains s)
+    exact this.imp (by intro a b h; simpa using h)
+
+
+/-- the zero-filled species of the model, for embedding keys `K` -/
+def extrasOf (densSp K : List String) : List String :=
+  (sortSp (eraseDupsSp densSp)).filter (fun s => densSp.contains s && !K.contains s)
+theorem foldl_setDefault_lookup {β : Type} (n : β) (l : List String) (D : List (String × β)) (s : String) :
+    lookupLast (l.foldl (fun D s => odictSetDefault D s n) D) s
+      = match lookupLast D s with | some w => some w | none => if s ∈ l then some n else none := by
+  induction l generalizing D with
+  | nil => cases h : lookupLast D s <;> simp [h]
+  | cons x l ih =>
+    rw [List.foldl_cons, ih, lookupLast_odictSetDefault]
+    cases lookupLast D s with
+    | some w => rfl
+    | none =>
+      by_cases h2 : s = x
+      · simp [h2]
+      · simp [h2]
+
+
+/-! ### the Finnis-Sinclair parts -/
+
+/-- the from- and to-species of all rows, in row order -/
+def fsSpecies (rows : List FsRow) : List String := rows.flatMap fun r => [r.species.from_species, r.species.to_species]
+
+theorem density_species_loop_eq (density : List FsRow) (acc : List String) (rows : List FsRow) :
+    eam_density_species_fs_loop1 density acc rows = listToSet (acc ++ fsSpecies rows) := by
+  induction rows generalizing acc with
+  | nil => simp [eam_density_species_fs_loop1, fsSpecies]
+  | cons r rows ih =>
+    simp only [eam_density_species_fs_loop1]
+    rw [ih]
+    simp [fsSpecies]
+
+theorem density_species_eq (rows : List FsRow) : eam_density_species_fs rows = listToSet (fsSpecies rows) := by
+  unfold eam_density_species_fs
+  rw [density_species_loop_eq]
+  rfl
+
+theorem fsRowsOf_species (mkFn : Pfi → FnRec) (rows : List FsRow) :
+    ((fsRowsOf mkFn rows).flatMap fun d => [d.1, d.2.1]) = fsSpecies rows := by
+  simp [fsRowsOf, fsSpecies, List.flatMap_map]
+
+/-- look-up in a dictionary of dictionaries -/
+def get2 (D : List (String × List (String × FnRec))) (a b : String) : Option FnRec :=
+  match lookupLast D a with
+  | some d => lookupLast d b
+  | none => none
+
+/-- one pass of the body of `_density_to_potential_form_dict`, without the guard -/
+def densStep (D : List (String × List (String × FnRec))) (f t : String) (v : FnRec) : List (String × List (String × FnRec)) :=
+  odictSet (odictSetDefault D f []) f (odictSet ((lookupLast (odictSetDefault D f []) f).getD []) t v)
+
+theorem lookupLast_setDefault_self {β : Type} (D : List (String × β)) (k : String) (v : β) :
+    lookupLast (odictSetDefault D k v) k = some ((lookupLast D k).getD v) := by
+  rw [lookupLast_odictSetDefault]
+  cases lookupLast D k <;> simp
+
+theorem get2_densStep (D : List (String × List (String × FnRec))) (f t : String) (v : FnRec) (a b : String) :
+    get2 (densStep D f t v) a b = if a = f ∧ b = t then some v else get2 D a b := by
+  unfold get2 densStep
+  rw [lookupLast_odictSet, lookupLast_setDefault_self]
+  by_cases ha : a = f
+  · subst ha
+    simp only [if_true, true_and, lookupLast_odictSet]
+    by_cases hb : b = t
+    · simp [hb]
+    · simp only [hb, if_false]
+      cases lookupLast D a <;> simp [lookupLast]
+  · simp only [ha, if_false, false_and]
+    rw [lookupLast_odictSetDefault]
+    cases lookupLast D a <;> simp [ha]
+
+/-- the guard `if t_species in add_to` looks at `get2` -/
+theorem guard_eq (D : List (String × List (String × FnRec))) (f t : String) :
+    (((lookupLast (odictSetDefault D f []) f).getD []).any fun e => e.1 == t) = (get2 D f t).isSome := by
+  rw [lookupLast_setDefault_self]
+  unfold get2
+  have key : ∀ d : List (String × FnRec), (d.any fun e => e.1 == t) = (lookupLast d t).isSome := by
+    intro d
+    cases h : lookupLast d t with
+    | none =>
+      have := (lookupLast_eq_none d t).1 h
+      simp only [Option.isSome_none]
+      rw [Bool.eq_false_iff]
+      intro hany
+      apply this
+      simp at hany ⊢
+      exact hany
+    | some w =>
+      simp only [Option.isSome_some]
+      by_contra hc
+      have hn : lookupLast d t = none := by
+        rw [lookupLast_eq_none]
+        simp at hc ⊢
+        exact hc
+      rw [hn] at h
+      exact absurd h (by simp)
+  cases h : lookupLast D f with
+  | none => simp
+  | some d => simpa using key d
+
+theorem to_dict_fs_loop_cons (mkFn : Pfi → FnRec) (density : List FsRow) (D : List (String × List (String × FnRec))) (r : FsRow) (rows : List FsRow) :
+    eam_density_to_dict_fs_loop1 mkFn density D () (r :: rows)
+      = if (get2 D r.species.from_species r.species.to_species).isSome then .error BuildErr.duplicateDensity
+        else eam_density_to_dict_fs_loop1 mkFn density (densStep D r.species.from_species r.species.to_species (mkFn r.pfi)) () rows := by
+  rw [eam_density_to_dict_fs_loop1]
+  simp only [guard_eq]
+  rfl
+
+/-- the rows' keys -/
+def fsKeys (rows : List FsRow) : List (String × String) := rows.map fun r => (r.species.from_species, r.species.to_species)
+
+/-- the declared function of `a->b` -/
+def declOf (mkFn : Pfi → FnRec) (rows : List FsRow) (a b : String) : Option FnRec :=
+  (rows.find? fun r => r.species.from_species == a && r.species.to_species == b).map fun r => mkFn r.pfi
+
+theorem declOf_none (mkFn : Pfi → FnRec) (rows : List FsRow) (a b : String) (h : (a, b) ∉ fsKeys rows) : declOf mkFn rows a b = none := by
+  unfold declOf
+  rw [Option.map_eq_none_iff, List.find?_eq_none]
+  intro r hr hc
+  apply h
+  simp only [Bool.and_eq_true, beq_iff_eq] at hc
+  simp only [fsKeys, List.mem_map]
+  exact ⟨r, hr, by rw [hc.1, hc.2]⟩
+
+theorem to_dict_fs_ok (mkFn : Pfi → FnRec) (density : List FsRow) (rows : List FsRow) (D : List (String × List (String × FnRec)))
+    (hnd : (fsKeys rows).Nodup) (hfresh : ∀ r ∈ rows, get2 D r.species.from_species r.species.to_species = none) :
+    ∃ D', eam_density_to_dict_fs_loop1 mkFn density D () rows = .ok D' ∧
+      ∀ a b, get2 D' a b = match declOf mkFn rows a b with | some v => some v | none => get2 D a b := by
+  induction rows generalizing D with
+  | nil => exact ⟨D, rfl, fun a b => rfl⟩
+  | cons r rows ih =>
+    rw [to_dict_fs_loop_cons, hfresh r (by simp)]
+    simp only [Option.isSome_none, Bool.false_eq_true, if_false]
+    have hnd' : (r.species.from_species, r.species.to_species) ∉ fsKeys rows ∧ (fsKeys rows).Nodup := by
+      have := hnd
+      unfold fsKeys at this ⊢
+      rw [List.map_cons, List.nodup_cons] at this
+      exact this
+    have hnotin : (r.species.from_species, r.species.to_species) ∉ fsKeys rows := hnd'.1
+    obtain ⟨D', hD', hget⟩ := ih (densStep D r.species.from_species r.species.to_species (mkFn r.pfi)) hnd'.2 (by
+      intro r' hr'
+      rw [get2_densStep]
+      have hne : ¬ (r'.species.from_species = r.species.from_species ∧ r'.species.to_species = r.species.to_species) := by
+        rintro ⟨h1, h2⟩
+        apply hnotin
+        simp only [fsKeys, List.mem_map]
+        exact ⟨r', hr', by rw [h1, h2]⟩
+      rw [if_neg hne]
+      exact hfresh r' (by simp [hr']))
+    refine ⟨D', hD', ?_⟩
+    intro a b
+    rw [hget, get2_densStep]
+    by_cases hab : a = r.species.from_species ∧ b = r.species.to_species
+    · obtain ⟨ha, hb⟩ := hab
+      subst ha hb
+      rw [declOf_none mkFn rows _ _ hnotin]
+      simp [declOf]
+    · rw [if_neg hab]
+      have : declOf mkFn (r :: rows) a b = declOf mkFn rows a b := by
+        unfold declOf
+        rw [List.find?_cons]
+        have : (r.species.from_species == a && r.species.to_species == b) = false := by
+          rw [Bool.eq_false_iff]
+          intro hc
+          simp only [Bool.and_eq_true, beq_iff_eq] at hc
+          exact hab ⟨hc.1.symm, hc.2.symm⟩
+        rw [this]
+      rw [this]
+
+theorem to_dict_fs_dup (mkFn : Pfi → FnRec) (density : List FsRow) (rows : List FsRow) (D : List (String × List (String × FnRec)))
+    (h : ¬ (fsKeys rows).Nodup ∨ ∃ r ∈ rows, get2 D r.species.from_species r.species.to_species ≠ none) :
+    eam_density_to_dict_fs_loop1 mkFn density D () rows = .error BuildErr.duplicateDensity := by
+  induction rows generalizing D with
+  | nil =>
+    rcases h with h | ⟨r, hr, _⟩
+    · exact absurd (by simp [fsKeys]) h
+    · simp at hr
+  | cons r rows ih =>
+    rw [to_dict_fs_loop_cons]
+    split
+    · rfl
+    · rename_i hguard
+      have hg : get2 D r.species.from_species r.species.to_species = none := by
+        cases hh : get2 D r.species.from_species r.species.to_species with
+        | none => rfl
+        | some w => rw [hh] at hguard; simp at hguard
+      apply ih
+      rcases h with h | ⟨r', hr', hne⟩
+      · have : ¬ ((r.species.from_species, r.species.to_species) ∉ fsKeys rows ∧ (fsKeys rows).Nodup) := by
+          intro hc
+          apply h
+          unfold fsKeys at hc ⊢
+          rw [List.map_cons, List.nodup_cons]
+          exact hc
+        by_cases hn : (fsKeys rows).Nodup
+        · right
+          have hin : (r.species.from_species, r.species.to_species) ∈ fsKeys rows := by
+            by_contra hc
+            exact this ⟨hc, hn⟩
+          simp only [fsKeys, List.mem_map] at hin
+          obtain ⟨r', hr', heq⟩ := hin
+          refine ⟨r', hr', ?_⟩
+          rw [get2_densStep]
+          have h1 : r'.species.from_species = r.species.from_species := (Prod.mk.inj heq).1
+          have h2 : r'.species.to_species = r.species.to_species := (Prod.mk.inj heq).2
+          simp [h1, h2]
+        · exact Or.inl hn
+      · right
+        rcases List.mem_cons.1 hr' with rfl | hr''
+        · exact absurd hg hne
+        · refine ⟨r', hr'', ?_⟩
+          rw [get2_densStep]
+          split
+          · simp
+          · exact hne
+
+
+/-! #### zero-filling of the embedding dictionary -/
+
+theorem null_embed_fs_loop_eq (cp : CpEamFS) (defined : List String) (density : List FsRow) (dd : List (String × List (String × FnRec))) (ds : List String)
+    (E : List (String × FnRec)) (null : FnRec) (nes l : List String) :
+    eam_add_null_embed_fs_loop1 cp defined density dd ds E null nes l = l.foldl (fun E s => odictSet E s null) E := by
+  induction l generalizing E with
+  | nil => rfl
+  | cons r rows ih => simp only [eam_add_null_embed_fs_loop1, List.foldl_cons]; exact ih _
+
+theorem add_null_embed_fs_keys (cp : CpEamFS) (E : List (String × FnRec)) (dd : List (String × List (String × FnRec))) :
+    (eam_add_null_embed_fs cp E dd).map (·.1) = E.map (·.1) ++ extrasOf (fsSpecies cp.eam_density_fs) (E.map (·.1)) := by
+  unfold eam_add_null_embed_fs eam_extract_density_fs
+  simp only []
+  rw [null_embed_fs_loop_eq, density_species_eq, null_species_eq, foldl_odictSet_keys]
+  · rfl
+  · exact (((C05.TabeamWriter.sortSp_perm _).nodup_iff).2 (nodup_eraseDupsSp _)).filter _
+  · intro s hs
+    have := (List.mem_filter.1 hs).2
+    simp only [Bool.and_eq_true, Bool.not_eq_true'] at this
+    simpa using this.2
+
+theorem add_null_embed_fs_lookup (cp : CpEamFS) (E : List (String × FnRec)) (dd : List (String × List (String × FnRec))) (s : String) :
+    lookupLast (eam_add_null_embed_fs cp E dd) s
+      = if s ∈ extrasOf (fsSpecies cp.eam_density_fs) (E.map (·.1)) then some zeroFn else lookupLast E s := by
+  unfold eam_add_null_embed_fs eam_extract_density_fs
+  simp only []
+  rw [null_embed_fs_loop_eq, density_species_eq, null_species_eq, foldl_odictSet_lookup]
+  rfl
+
+theorem mem_extrasOf (densSp K : List String) (s : String) : s ∈ extrasOf densSp K ↔ s ∈ densSp ∧ s ∉ K := by
+  unfold extrasOf
+  rw [List.mem_filter, (C05.TabeamWriter.sortSp_perm _).mem_iff, mem_eraseDupsSp]
+  simp
+
+/-! #### zero-filling of the density dictionaries -/
+
+/-- the inner loop: every species of `order` gets the zero function unless it has one -/
+def fillD (order : List String) (d : List (String × FnRec)) : List (String × FnRec) :=
+  order.foldl (fun d o => odictSetDefault d o zeroFn) d
+
+theorem null_dens_fs_loop2_eq (setOrder : List String → List String) (all : List String) (cp : CpEamFS) (density : List FsRow)
+    (D : List (String × List (String × FnRec))) (ds : List String) (E : List (String × FnRec)) (es : List String) (d : List (String × FnRec))
+    (s : String) (l : List String) :
+    eam_add_null_dens_fs_loop2 setOrder all cp density D ds E es zeroFn d s l = fillD l d := by
+  unfold fillD
+  induction l generalizing d with
+  | nil => rfl
+  | cons r rows ih => simp only [eam_add_null_dens_fs_loop2, List.foldl_cons]; exact ih _
+
+/-- the body of the outer loop -/
+def outerStep (order : List String) (D : List (String × List (String × FnRec))) (s : String) : List (String × List (String × FnRec)) :=
+  odictSet (odictSetDefault D s []) s (fillD order ((lookupLast (odictSetDefault D s []) s).getD []))
+
+theorem null_dens_fs_loop1_eq (setOrder : List String → List String) (all : List String) (cp : CpEamFS) (density : List FsRow)
+    (D : List (String × List (String × FnRec))) (ds : List String) (E : List (String × FnRec)) (es : List String) (l : List String) :
+    eam_add_null_dens_fs_loop1 setOrder all cp density D ds E es zeroFn l = l.foldl (outerStep (setOrder all)) D := by
+  induction l generalizing D with
+  | nil => rfl
+  | cons r rows ih =>
+    simp only [eam_add_null_dens_fs_loop1, List.foldl_cons, null_dens_fs_loop2_eq]
+    exact ih _
+
+/-- what the inner loop does to a look-up -/
+def fillLk (order : List String) (x : Option FnRec) (o : String) : Option FnRec :=
+  match x with
+  | some w => some w
+  | none => if o ∈ order then some zeroFn else none
+
+theorem fillLk_idem (order : List String) (x : Option FnRec) (o : String) : fillLk order (fillLk order x o) o = fillLk order x o := by
+  cases x with
+  | some w => rfl
+  | none => by_cases h : o ∈ order <;> simp [fillLk, h]
+
+theorem lookup_outerStep (order : List String) (D : List (String × List (String × FnRec))) (x a : String) :
+    lookupLast (outerStep order D x) a = if a = x then some (fillD order ((lookupLast D x).getD [])) else lookupLast D a := by
+  unfold outerStep
+  rw [lookupLast_odictSet, lookupLast_setDefault_self]
+  by_cases ha : a = x
+  · simp [ha]
+  · simp only [ha, if_false]
+    rw [lookupLast_odictSetDefault]
+    cases lookupLast D a <;> simp [ha]
+
+theorem get2_outerStep (order : List String) (D : List (String × List (String × FnRec))) (x a b : String) :
+    get2 (outerStep order D x) a b = if a = x then fillLk order (get2 D a b) b else get2 D a b := by
+  unfold get2
+  rw [lookup_outerStep]
+  by_cases ha : a = x
+  · subst ha
+    simp only [if_true]
+    unfold fillD
+    rw [foldl_setDefault_lookup]
+    cases lookupLast D a with
+    | none => simp [fillLk, lookupLast]
+    | some d => simp only [Option.getD_some]; cases lookupLast d b <;> simp [fillLk]
+  · simp only [ha, if_false]
+
+theorem get2_foldl_outerStep (order : List String) (l : List String) (D : List (String × List (String × FnRec))) (a b : String) :
+    get2 (l.foldl (outerStep order) D) a b = if a ∈ l then fillLk order (get2 D a b) b else get2 D a b := by
+  induction l generalizing D with
+  | nil => simp
+  | cons x l ih =>
+    rw [List.foldl_cons, ih, get2_outerStep]
+    by_cases h1 : a = x <;> by_cases h2 : a ∈ l <;> simp [h1, h2, fillLk_idem]
+
+theorem isSome_foldl_outerStep (order : List String) (l : List String) (D : List (String × List (String × FnRec))) (a : String)
+    (h : a ∈ l ∨ (lookupLast D a).isSome) : (lookupLast (l.foldl (outerStep order) D) a).isSome := by
+  induction l generalizing D with
+  | nil =>
+    rcases h with h | h
+    · simp at h
+    · exact h
+  | cons x l ih =>
+    rw [List.foldl_cons]
+    apply ih
+    rw [lookup_outerStep]
+    by_cases hax : a = x
+    · right; simp [hax]
+    · rcases h with h | h
+      · left
+        rcases List.mem_cons.1 h with h | h
+        · exact absurd h hax
+        · exact h
+      · right; simpa [hax] using h
+
+theorem add_null_dens_fs_spec (setOrder : List String → List String) (hperm : ∀ l, (setOrder l).Perm l) (cp : CpEamFS)
+    (E : List (String × FnRec)) (D : List (String × List (String × FnRec))) (s : String) (hs : s ∈ E.map (·.1))
+    (hsub : ∀ x ∈ fsSpecies cp.eam_density_fs, x ∈ E.map (·.1)) :
+    ∃ found, lookupLast (eam_add_null_dens_fs setOrder cp E D) s = some found ∧
+      ∀ o, lookupLast found o = match get2 D s o with | some w => some w | none => if o ∈ E.map (·.1) then some zeroFn else none := by
+  have hmem : ∀ x, x ∈ setOrder (setUnion (E.map fun e => e.1) (eam_density_species_fs (eam_extract_density_fs cp))) ↔ x ∈ E.map (·.1) := by
+    intro x
+    rw [(hperm _).mem_iff]
+    unfold setUnion eam_extract_density_fs
+    rw [List.mem_append, mem_setDiff, density_species_eq, mem_listToSet]
+    constructor
+    · rintro (h | ⟨h, _⟩)
+      · exact h
+      · exact hsub x h
+    · exact Or.inl
+  unfold eam_add_null_dens_fs
+  simp only []
+  rw [null_dens_fs_loop1_eq]
+  have hsome := isSome_foldl_outerStep (setOrder (setUnion (E.map fun e => e.1) (eam_density_species_fs (eam_extract_density_fs cp))))
+    (setOrder (setUnion (E.map fun e => e.1) (eam_density_species_fs (eam_extract_density_fs cp)))) D s (Or.inl ((hmem s).2 hs))
+  obtain ⟨found, hfound⟩ := Option.isSome_iff_exists.1 hsome
+  refine ⟨found, hfound, ?_⟩
+  intro o
+  have := get2_foldl_outerStep (setOrder (setUnion (E.map fun e => e.1) (eam_density_species_fs (eam_extract_density_fs cp))))
+    (setOrder (setUnion (E.map fun e => e.1) (eam_density_species_fs (eam_extract_density_fs cp)))) D s o
+  rw [if_pos ((hmem s).2 hs)] at this
+  unfold get2 at this
+  rw [hfound] at this
+  simp only [] at this
+  rw [this]
+  unfold fillLk get2
+  cases hD : lookupLast D s with
+  | none =>
+    simp only []
+    by_cases ho : o ∈ E.map (·.1)
+    · rw [if_pos ((hmem o).2 ho), if_pos ho]
+    · rw [if_neg (fun h => ho ((hmem o).1 h)), if_neg ho]
+  | some d =>
+    simp only []
+    cases lookupLast d o with
+    | some w => rfl
+    | none =>
+      simp only []
+      by_cases ho : o ∈ E.map (·.1)
+      · rw [if_pos ((hmem o).2 ho), if_pos ho]
+      · rw [if_neg (fun h => ho ((hmem o).1 h)), if_neg ho]
+
+
+/-! #### the model's elements, the per-species call and the final loop -/
+
+/-- the model's dictionary `{neighbour : function}` of central species `s` over the species `all` -/
+def modelDensTo (dens : List (Sp × Sp × Fid)) (all : List Sp) (s : Sp) : List (Sp × Fid) :=
+  all.map fun o => (o, match dens.find? (fun d => d.1 == s && d.2.1 == o) with
+                       | some d => d.2.2
+                       | none => 0)
+
+/-- the model's per-species constructor -/
+def mkElFS (embed : List (Sp × Fid)) (dens : List (Sp × Sp × Fid)) (all : List Sp) (spMeta : Sp → Option (Int × Rat × Rat × String)) (s : Sp) : Option El :=
+  match spMeta s with
+  | none => none
+  | some (z, m, a, l) =>
+    some { sp := s, z := z, mass := m, a0 := a, lat := l, embed := (dictGet embed s).getD 0, dens := 0, densTo := modelDensTo dens all s }
+
+/-- the model's species list -/
+def allOf (embed : List (Sp × Fid)) (dens : List (Sp × Sp × Fid)) : List Sp :=
+  eraseDupsSp (embed.map (·.1)) ++ extrasOf (dens.flatMap fun d => [d.1, d.2.1]) (eraseDupsSp (embed.map (·.1)))
+
+theorem eamBuildFS_eq (embed : List (Sp × Fid)) (dens : List (Sp × Sp × Fid)) (spMeta : Sp → Option (Int × Rat × Rat × String)) :
+    eamBuildFS embed dens spMeta = (allOf embed dens).mapM (mkElFS embed dens (allOf embed dens) spMeta) := rfl
+
+theorem dictGet_map_self (f : Sp → Fid) (l : List Sp) (o : Sp) :
+    dictGet (l.map fun o => (o, f o)) o = if o ∈ l then some (f o) else none := by
+  rw [dictGet_eq_lookupLast]
+  induction l using rev_ind with
+  | nil => simp [lookupLast]
+  | append_singleton l x ih =>
+    rw [List.map_append, List.map_singleton, lookupLast_append_single, ih]
+    by_cases h : o = x
+    · subst h; simp
+    · simp [h]
+
+/-- what the per-species call has to deliver -/
+def CreateOk (r : Except BuildErr EamRec) (m : Option El) : Prop :=
+  match m with
+  | some el => ∃ rec, r = .ok rec ∧ SameEl rec el
+  | none => ∃ e, r = .error e ∧ (e = BuildErr.noAtomicNumber ∨ e = BuildErr.noMass)
+
+theorem create_fs_spec (refMass : String → Option Rat) (refNumber : String → Option Int) (refLatticeConstant : String → Option Rat)
+    (refLatticeType : String → Option String) (embed : List (Sp × Fid)) (dens : List (Sp × Sp × Fid)) (all : List Sp) (s : String)
+    (E' : List (String × FnRec)) (D' : List (String × List (String × FnRec)))
+    (hE : lookupLast E' s = some ⟨(dictGet embed s).getD 0⟩)
+    (hD : ∃ found, lookupLast D' s = some found ∧ ∀ o, (lookupLast found o).map (·.fid) = dictGet (modelDensTo dens all s) o) :
+    CreateOk (eam_create_potential_fs refMass refNumber refLatticeConstant refLatticeType s E' D')
+      (mkElFS embed dens all (metaOf refMass refNumber refLatticeConstant refLatticeType) s) := by
+  obtain ⟨found, hfound, hlk⟩ := hD
+  unfold eam_create_potential_fs mkElFS metaOf eam_get_atomic_number eam_get_mass eam_get_lattice_constant eam_get_lattice_type
+  rw [hE, hfound]
+  cases refNumber s with
+  | none => simp [CreateOk, andThen]
+  | some z =>
+    cases refMass s with
+    | none => simp [CreateOk, andThen]
+    | some m =>
+      cases refLatticeConstant s <;> cases refLatticeType s <;> simp [CreateOk, andThen, SameEl, hlk]
+
+/-- what the final loop has to deliver -/
+def LoopOk (acc : List EamRec) (r : Except BuildErr (List EamRec)) (m : Option (List El)) : Prop :=
+  match m with
+  | some els => ∃ recs, r = .ok (acc ++ recs) ∧ List.Forall₂ SameEl recs els
+  | none => ∃ e, r = .error e ∧ (e = BuildErr.noAtomicNumber ∨ e = BuildErr.noMass)
+
+theorem loop1_fs_spec (mkFn : Pfi → FnRec) (setOrder : List String → List String)
+    (refMass : String → Option Rat) (refNumber : String → Option Int) (refLatticeConstant : String → Option Rat)
+    (refLatticeType : String → Option String) (cp : CpEamFS) (density : List FsRow) (D' : List (String × List (String × FnRec))) (ds diff : List String)
+    (embed : List EmbRow) (E' : List (String × FnRec)) (es : List String) (b : Bool) (g : String → Option El) (l : List String)
+    (h : ∀ s ∈ l, CreateOk (eam_create_potential_fs refMass refNumber refLatticeConstant refLatticeType s E' D') (g s))
+    (acc : List EamRec) :
+    LoopOk acc (eam_init_potentials_fs_loop1 mkFn setOrder refMass refNumber refLatticeConstant refLatticeType cp density D' ds diff embed E' es
+      () () () acc b l) (l.mapM g) := by
+  induction l generalizing acc with
+  | nil => exact ⟨[], by simp [eam_init_potentials_fs_loop1], List.Forall₂.nil⟩
+  | cons x l ih =>
+    have hx := h x (by simp)
+    have ih' := fun acc => ih (fun s hs => h s (by simp [hs])) acc
+    unfold eam_init_potentials_fs_loop1
+    rw [List.mapM_cons]
+    cases hg : g x with
+    | none =>
+      rw [hg] at hx
+      obtain ⟨e, he, hee⟩ := hx
+      rw [he]
+      exact ⟨e, rfl, hee⟩
+    | some el =>
+      rw [hg] at hx
+      obtain ⟨rec, hrec, hsame⟩ := hx
+      rw [hrec]
+      simp only [andThen]
+      have := ih' (acc ++ [rec])
+      cases hm : l.mapM g with
+      | none =>
+        rw [hm] at this
+        exact this
+      | some els =>
+        rw [hm] at this
+        obtain ⟨recs, hrecs, hall⟩ := this
+        refine ⟨rec :: recs, ?_, List.Forall₂.cons hsame hall⟩
+        rw [hrecs]
+        simp
+
+theorem loop3_fs_eq_loop1 (mkFn : Pfi → FnRec) (setOrder : List String → List String)
+    (refMass : String → Option Rat) (refNumber : String → Option Int) (refLatticeConstant : String → Option Rat)
+    (refLatticeType : String → Option String) (cp : CpEamFS) (density : List FsRow) (D' : List (String × List (String × FnRec))) (ds diff : List String)
+    (embed : List EmbRow) (E' : List (String × FnRec)) (es : List String) (b : Bool) (l : List String) (acc : List EamRec) :
+    eam_init_potentials_fs_loop3 mkFn setOrder refMass refNumber refLatticeConstant refLatticeType cp density D' ds diff embed E' es () () () acc b l
+      = eam_init_potentials_fs_loop1 mkFn setOrder refMass refNumber refLatticeConstant refLatticeType cp density D' ds diff embed E' es () () () acc b l := by
+  induction l generalizing acc with
+  | nil => rfl
+  | cons x l ih =>
+    unfold eam_init_potentials_fs_loop3 eam_init_potentials_fs_loop1
+    simp only [ih]
+
+/-- with zero-filling on, the builder is: the density dictionaries, then (both branches of the species comparison being the same code) the final loop over the zero-filled dictionaries -/
+theorem init_fs_eq_loop1 (mkFn : Pfi → FnRec) (setOrder : List String → List String)
+    (refMass : String → Option Rat) (refNumber : String → Option Int) (refLatticeConstant : String → Option Rat)
+    (refLatticeType : String → Option String) (cp : CpEamFS) :
+    eam_init_potentials_fs mkFn setOrder refMass refNumber refLatticeConstant refLatticeType true cp () ()
+      = andThen (eam_density_to_dict_fs mkFn cp.eam_density_fs ()) fun D0 =>
+        eam_init_potentials_fs_loop1 mkFn setOrder refMass refNumber refLatticeConstant refLatticeType cp cp.eam_density_fs
+          (eam_add_null_dens_fs setOrder cp (eam_add_null_embed_fs cp (eam_to_dict mkFn cp.eam_embed ()) D0) D0)
+          (eam_density_species_fs cp.eam_density_fs) (setSymDiff (eam_embed_species cp.eam_embed) (eam_density_species_fs cp.eam_density_fs)) cp.eam_embed
+          (eam_add_null_embed_fs cp (eam_to_dict mkFn cp.eam_embed ()) D0) (eam_embed_species cp.eam_embed) () () () [] true
+          ((eam_add_null_embed_fs cp (eam_to_dict mkFn cp.eam_embed ()) D0).map (·.1)) := by
+  unfold eam_init_potentials_fs eam_extract_embed_fs eam_extract_density_fs eam_embed_to_dict
+  simp only [if_true]
+  split
+  · rfl
+  · congr 1
+    funext D0
+    exact loop3_fs_eq_loop1 ..
+
+theorem find_fsRowsOf (mkFn : Pfi → FnRec) (rows : List FsRow) (s o : String) :
+    (fsRowsOf mkFn rows).find? (fun d => d.1 == s && d.2.1 == o)
+      = (rows.find? fun r => r.species.from_species == s && r.species.to_species == o).map
+          fun r => (r.species.from_species, r.species.to_species, (mkFn r.pfi).fid) := by
+  unfold fsRowsOf
+  rw [List.find?_map]
+  rfl
+
+theorem builder_core_fs (mkFn : Pfi → FnRec) (setOrder : List String → List String) (hperm : ∀ l, (setOrder l).Perm l)
+    (refMass : String → Option Rat) (refNumber : String → Option Int) (refLatticeConstant : String → Option Rat)
+    (refLatticeType : String → Option String) (cp : CpEamFS) (density : List FsRow) (embed : List EmbRow) (ds diff es : List String) (b : Bool)
+    (D0 : List (String × List (String × FnRec))) (hD0 : ∀ a o, get2 D0 a o = declOf mkFn cp.eam_density_fs a o) :
+    LoopOk [] (eam_init_potentials_fs_loop1 mkFn setOrder refMass refNumber refLatticeConstant refLatticeType cp density
+        (eam_add_null_dens_fs setOrder cp (eam_add_null_embed_fs cp (eam_to_dict mkFn cp.eam_embed ()) D0) D0)
+        ds diff embed (eam_add_null_embed_fs cp (eam_to_dict mkFn cp.eam_embed ()) D0) es () () () [] b
+        ((eam_add_null_embed_fs cp (eam_to_dict mkFn cp.eam_embed ()) D0).map (·.1)))
+      (eamBuildFS (rowsOf mkFn cp.eam_embed) (fsRowsOf mkFn cp.eam_density_fs) (metaOf refMass refNumber refLatticeConstant refLatticeType)) := by
+  rw [eamBuildFS_eq]
+  have hall : allOf (rowsOf mkFn cp.eam_embed) (fsRowsOf mkFn cp.eam_density_fs)
+      = eraseDupsSp (cp.eam_embed.map (·.species))
+          ++ extrasOf (fsSpecies cp.eam_density_fs) (eraseDupsSp (cp.eam_embed.map (·.species))) := by
+    unfold allOf
+    rw [rowsOf_keys, fsRowsOf_species]
+  have hkeys : (eam_add_null_embed_fs cp (eam_to_dict mkFn cp.eam_embed ()) D0).map (·.1)
+      = allOf (rowsOf mkFn cp.eam_embed) (fsRowsOf mkFn cp.eam_density_fs) := by
+    rw [add_null_embed_fs_keys, to_dict_keys, hall]
+  have hsub : ∀ x ∈ fsSpecies cp.eam_density_fs, x ∈ allOf (rowsOf mkFn cp.eam_embed) (fsRowsOf mkFn cp.eam_density_fs) := by
+    intro x hx
+    rw [hall, List.mem_append, mem_extrasOf]
+    by_cases hk : x ∈ eraseDupsSp (cp.eam_embed.map (·.species))
+    · exact Or.inl hk
+    · exact Or.inr ⟨hx, hk⟩
+  rw [hkeys]
+  apply loop1_fs_spec
+  intro s hs
+  apply create_fs_spec
+  · rw [add_null_embed_fs_lookup, to_dict_keys, to_dict_lookup]
+    split
+    · rename_i hex
+      have hnot : s ∉ cp.eam_embed.map (·.species) := by
+        have h2 := ((mem_extrasOf _ _ _).1 hex).2
+        rwa [mem_eraseDupsSp] at h2
+      have : dictGet (rowsOf mkFn cp.eam_embed) s = none := by
+        rw [dictGet_eq_lookupLast, lookupLast_eq_none, rowsOf_keys]
+        exact hnot
+      rw [this]
+      rfl
+    · rename_i hex
+      have hin : s ∈ cp.eam_embed.map (·.species) := by
+        rw [hall] at hs
+        rcases List.mem_append.1 hs with h | h
+        · rwa [mem_eraseDupsSp] at h
+        · exact absurd h hex
+      cases hd : dictGet (rowsOf mkFn cp.eam_embed) s with
+      | none =>
+        rw [dictGet_eq_lookupLast, lookupLast_eq_none, rowsOf_keys] at hd
+        exact absurd hin hd
+      | some f => rfl
+  · obtain ⟨found, hfound, hlk⟩ := add_null_dens_fs_spec setOrder hperm cp
+      (eam_add_null_embed_fs cp (eam_to_dict mkFn cp.eam_embed ()) D0) D0 s (by rw [hkeys]; exact hs) (by rw [hkeys]; exact hsub)
+    refine ⟨found, hfound, ?_⟩
+    intro o
+    rw [hlk, hkeys, hD0]
+    unfold modelDensTo
+    rw [dictGet_map_self]
+    rw [find_fsRowsOf]
+    unfold declOf
+    cases hf : cp.eam_density_fs.find? (fun r => r.species.from_species == s && r.species.to_species == o) with
+    | none =>
+      by_cases ho : o ∈ allOf (rowsOf mkFn cp.eam_embed) (fsRowsOf mkFn cp.eam_density_fs)
+      · simp [ho, zeroFn]
+      · simp [ho]
+    | some r =>
+      have hr := List.mem_of_find?_eq_some hf
+      have hp := List.find?_some hf
+      simp only [Bool.and_eq_true, beq_iff_eq] at hp
+      have ho : o ∈ allOf (rowsOf mkFn cp.eam_embed) (fsRowsOf mkFn cp.eam_density_fs) := by
+        apply hsub
+        unfold fsSpecies
+        rw [List.mem_flatMap]
+        exact ⟨r, hr, by simp [hp.2]⟩
+      simp [ho]
+
+end FSTie
+
+open Atsim.Gen.Logic FSTie in
+/-- **code tie (Finnis-Sinclair zero-filling builder, any set iteration order)**: for a model that declares no `A->B` twice, the regenerated builder returns the model's
+elements, in the model's order, each holding under every neighbour species B the function of the entry `A->B` (zero when undeclared) - whatever order the two set loops
+of `_add_null_density_functions` run in; when the reference data lacks an atomic number or a mass it fails with that error -/
+theorem C04_code_eam_builder_fs (mkFn : Pfi → FnRec) (setOrder : List String → List String) (hperm : ∀ l, (setOrder l).Perm l)
+    (refMass : String → Option Rat) (refNumber : String → Option Int) (refLatticeConstant : String → Option Rat) (refLatticeType : String → Option String)
+    (cp : CpEamFS) (hnd : NoDupDecl cp.eam_density_fs) :
+    match eamBuildFS (rowsOf mkFn cp.eam_embed) (fsRowsOf mkFn cp.eam_density_fs) (metaOf refMass refNumber refLatticeConstant refLatticeType) with
+    | some els => ∃ recs, eam_init_potentials_fs mkFn setOrder refMass refNumber refLatticeConstant refLatticeType true cp () () = .ok recs ∧
+                   List.Forall₂ SameEl recs els
+    | none => ∃ e, eam_init_potentials_fs mkFn setOrder refMass refNumber refLatticeConstant refLatticeType true cp () () = .error e ∧
+                   (e = BuildErr.noAtomicNumber ∨ e = BuildErr.noMass) := by
+  rw [init_fs_eq_loop1]
+  obtain ⟨D0, hD0, hget⟩ := to_dict_fs_ok mkFn cp.eam_density_fs cp.eam_density_fs [] hnd (fun _ _ => rfl)
+  have hD0' : eam_density_to_dict_fs mkFn cp.eam_density_fs () = .ok D0 := hD0
+  rw [hD0']
+  simp only [andThen]
+  have hget' : ∀ a o, get2 D0 a o = declOf mkFn cp.eam_density_fs a o := by
+    intro a o
+    rw [hget]
+    cases declOf mkFn cp.eam_density_fs a o <;> rfl
+  have := builder_core_fs mkFn setOrder hperm refMass refNumber refLatticeConstant refLatticeType cp cp.eam_density_fs cp.eam_embed
+    (eam_density_species_fs cp.eam_density_fs) (setSymDiff (eam_embed_species cp.eam_embed) (eam_density_species_fs cp.eam_density_fs))
+    (eam_embed_species cp.eam_embed) true D0 hget'
+  revert this
+  cases eamBuildFS (rowsOf mkFn cp.eam_embed) (fsRowsOf mkFn cp.eam_density_fs) (metaOf refMass refNumber refLatticeConstant refLatticeType) with
+  | none => exact id
+  | some els => intro h; simpa [LoopOk] using h
+
+open Atsim.Gen.Logic FSTie in
+/-- an `A->B` declared twice is refused (the configuration parser refuses it earlier: C20; this is the builder's own guard) -/
+theorem C04_code_eam_builder_fs_duplicate (mkFn : Pfi → FnRec) (setOrder : List String → List String)
+    (refMass : String → Option Rat) (refNumber : String → Option Int) (refLatticeConstant : String → Option Rat) (refLatticeType : String → Option String)
+    (cp : CpEamFS) (hd : ¬ NoDupDecl cp.eam_density_fs) :
+    eam_init_potentials_fs mkFn setOrder refMass refNumber refLatticeConstant refLatticeType true cp () () = .error BuildErr.duplicateDensity := by
+  rw [init_fs_eq_loop1]
+  have : eam_density_to_dict_fs mkFn cp.eam_density_fs () = .error BuildErr.duplicateDensity :=
+    to_dict_fs_dup mkFn cp.eam_density_fs cp.eam_density_fs [] (Or.inl hd)
+  rw [this]
+  rfl
+
+end Atsim.C04
